@@ -910,6 +910,11 @@ func (x *c15rptCtx) evalHeader(out, U string) {
 var c15dotNode = regexp.MustCompile(`^N\d+ \[label="([^"\\]+)\\n(\S+)(?: of (\S+))? \(`)
 var c15dotEdge = regexp.MustCompile(`^N\d+ -> N\d+ \[label=" (\S+)".* tooltip="\S+ -> (\S+) \(`)
 
+// dot nodelets of numeric tags: NN3_0 [label = "2kB" id="NN3_0" fontsize=8 shape=box3d tooltip="2048B"]
+// (N3 is the node they hang from); only the tag with the key "bytes" survives into graph reports.
+var c15dotNodeID = regexp.MustCompile(`^N(\d+) \[label="([^"\\]+)\\n`)
+var c15dotNodelet = regexp.MustCompile(`^NN(\d+)_(\d+) \[label = "([^"]*)" .*tooltip="([^"]*)"\]`)
+
 var c15legend = regexp.MustCompile(`Showing nodes accounting for (\S+), (\S+) of (\S+) total`)
 
 // evalTop handles -top and -tree (and -top -tagroot=key when rootKey != "").
@@ -1047,6 +1052,9 @@ func (x *c15rptCtx) evalTop(out string, kind string, rootKey string) {
 			x.valLabel("edge", e.w, x.rp.Samples[i].Value, U)
 		}
 	}
+	if kind == "dot" {
+		x.evalNodelets(out, U)
+	}
 	x.evalHeader(out, U)
 	if m := c15dropLine.FindStringSubmatch(out); m != nil {
 		x.st.c.Res.Hit("rpt:dropped-line")
@@ -1103,12 +1111,89 @@ func (x *c15rptCtx) evalTop(out string, kind string, rootKey string) {
 	}
 }
 
+// evalNodelets: the numeric-tag nodelets of a dot graph.  Graph reports keep the numeric tag whose
+// KEY is "bytes" (whatever its unit string); its value is labelled when the graph is built, i.e.
+// under the output unit as requested (a "minimum" is still unresolved then: per-value automatic
+// selection), its weight with the report's value formatter.
+func (x *c15rptCtx) evalNodelets(out, U string) {
+	unit, ok := x.units["bytes"]
+	if !ok {
+		return
+	}
+	ids := map[string]string{}
+	type nl struct{ label, weight string }
+	lets := map[string][]nl{}
+	for _, ln := range strings.Split(out, "\n") {
+		if m := c15dotNodeID.FindStringSubmatch(ln); m != nil {
+			ids[m[1]] = m[2]
+		} else if m := c15dotNodelet.FindStringSubmatch(ln); m != nil {
+			lets[m[1]] = append(lets[m[1]], nl{m[3], m[4]})
+		}
+	}
+	byName := map[string][]nl{}
+	for id, l := range lets {
+		byName[ids[id]] = l
+	}
+	for i, s := range x.rp.Samples {
+		name := fmt.Sprintf("fn%03d", i)
+		var tv *int64
+		for _, l := range s.Labels {
+			if l.Key == "bytes" {
+				v := l.Value
+				tv = &v
+			}
+		}
+		found := false
+		for _, id := range ids {
+			found = found || id == name
+		}
+		if tv == nil || !found || s.Value == 0 {
+			continue
+		}
+		x.st.c.Res.Hit("rpt:dot-nodelet")
+		l := byName[name]
+		if len(l) != 1 {
+			x.viol("C15/report/dot/nodelet-missing", fmt.Sprintf("%s carries the numeric tag bytes=%d %q and has %d nodelets", name, *tv, unit, len(l)))
+			continue
+		}
+		x.label("nodelet-tag-label", l[0].label, *tv, unit, x.to)
+		x.valLabel("nodelet-weight", l[0].weight, s.Value, U)
+	}
+}
+
 // modelUnit asks the model of selectOutputUnit for the graph of this profile: one leaf node per
 // sample (flat = cum = value) and the root (flat 0, cum Σ values).
 func (x *c15rptCtx) modelUnit(sum, abssum int64, callgrind bool) (string, bool) {
 	var b strings.Builder
 	if x.rp.NoRoot {
 		return "", false
+	}
+	// the model truncates min·r and total·r in exact arithmetic; where the float64 product lands on
+	// the other side of a whole number the two legitimately differ: not compared
+	if q := x.exactDivided(abssum); q != nil {
+		minMag := int64(0)
+		for _, v := range append([]int64{sum}, func() []int64 {
+			var vs []int64
+			for _, s := range x.rp.Samples {
+				vs = append(vs, s.Value)
+			}
+			return vs
+		}()...) {
+			if a := max(v, -v); a != 0 && (minMag == 0 || a < minMag) {
+				minMag = a
+			}
+		}
+		for _, v := range []int64{minMag, abssum} {
+			qq := x.exactDivided(v)
+			half := big.NewRat(1, 2)
+			nq := new(big.Rat).Add(qq, half)
+			n := new(big.Int).Quo(nq.Num(), nq.Denom())
+			d := c15abs(new(big.Rat).Sub(qq, new(big.Rat).SetInt(n)))
+			if d.Sign() != 0 && d.Cmp(new(big.Rat).Mul(c15abs(qq), c15tol)) <= 0 {
+				x.st.c.Res.Hit("rpt:selectunit-float-boundary-skipped")
+				return "", false
+			}
+		}
 	}
 	fmt.Fprintf(&b, "c15.selectunit %d", len(x.rp.Samples)+1)
 	for _, s := range x.rp.Samples {
@@ -1520,6 +1605,16 @@ func (st *c15State) genRpt(r *Rng) (from, to string, rp *c15Rpt) {
 			}
 		}
 		keys = append(keys, key{fmt.Sprintf("tag%c", 'a'+k), unit})
+	}
+	// the numeric tag graph reports keep is the one whose KEY is "bytes"; its unit string is
+	// whatever the producer wrote: other spellings of bytes, larger byte units, or another family
+	if r.Chance(60) {
+		ki := r.Intn(len(keys))
+		keys[ki].name = "bytes"
+		if r.Chance(60) {
+			bu := []string{"kilobytes", "kb", "MB", "bytes", "megabyte", "gigabytes", "KB", "byte", "tb", "kB"}
+			keys[ki].unit = bu[r.Intn(len(bu))]
+		}
 	}
 	// a small pool of values shared by all keys, so that values coincide across keys
 	pool := []int64{2048}
